@@ -542,6 +542,30 @@ def gen_case(rng):
     n = rng.randint(1, 6)
     none_p = rng.choice([0, 0, 0.2, 0.2, 0.5, 0.5, 0.8, 1.0])
     ents = []
+    if form == "dict" and rng.random() < 0.5:
+        # equal-length dicts with DIFFERENT keys (disjoint / one shared / permuted order), optionally an empty one:
+        # the key attribute must be the union over ALL objects, not the keys of the first
+        n = max(n, 2)
+        k = rng.randint(1, 3)
+        mode = rng.choice(["disjoint", "one-shared", "same-keys-other-order", "mixed"])
+        pool = list(KEYS)
+        rng.shuffle(pool)
+        shared = pool[0]
+        for i in range(n):
+            if mode == "disjoint":
+                ks = [pool[(i * k + j) % len(pool)] for j in range(k)]
+            elif mode == "one-shared":
+                ks = [shared] + [pool[1 + (i * (k - 1) + j) % (len(pool) - 1)] for j in range(k - 1)]
+            elif mode == "same-keys-other-order":
+                ks = pool[:k]
+                ks = ks[i % k:] + ks[:i % k]
+            else:
+                ks = rng.sample(KEYS, k)
+            ks = list(dict.fromkeys(ks))
+            ents.append(("d", [(q, gen_leaf(rng, "f64") if rng.random() < 0.9 else float(rng.randint(-3, 3))) for q in ks]))
+        if rng.random() < 0.25:
+            ents[rng.randrange(len(ents))] = ("d", [])
+        return ents
     if form == "dict":
         for _ in range(n):
             if rng.random() < none_p * 0.3:
@@ -948,6 +972,15 @@ def run_values(ctx, h5file):
         for combo in itertools.product(alphabet, repeat=k):
             corpus.append(list(combo))
     ctx.count("exhaustive lists of length <= 3 over the 9-element alphabet", len(corpus) - len(EXCLUDED_POINTS))
+    # exhaustive: every list of length <= 3 over a 6-element alphabet of dicts (same length / different keys,
+    # shared key, other key order, differing lengths, empty)
+    dicts = [("d", [("a", 1.0)]), ("d", [("b", 2.0)]), ("d", [("a", 3.0), ("b", 4.0)]), ("d", [("b", 5.0), ("a", 6.0)]),
+             ("d", []), ("d", [("c", 7.0), ("a", 8.5)])]
+    n0 = len(corpus)
+    for k in (1, 2, 3):
+        for combo in itertools.product(dicts, repeat=k):
+            corpus.append(list(combo))
+    ctx.count("exhaustive dict lists of length <= 3 over the 6-element dict alphabet", len(corpus) - n0)
     for i in range(n_in + len(corpus)):
         ents = corpus[i] if i < len(corpus) else gen_case(rng)
         if not ents:
